@@ -70,3 +70,8 @@ def run(ctx):
         rest = rest[:info["index"] - 1] + rest[info["index"]:]
     for e in events[:3] + events[-2:]:
         ctx.sample(e)
+    # socket-level tier: the real binary with -t 300ms against servers that accept and stall - the flag reaches both the connect and the
+    # data deadline, so the whole scan is over far below the 2 s default
+    from checks import wire_tier as wt
+    n3, rej = wt.run_wire(ctx, select=lambda s: s["name"] in ("socks-timeout-flag", "sigint-inflight-socks", "socks-subnet"), label="c09w", focus="time")
+    wt.report(ctx, "C09", rej)
